@@ -5,16 +5,17 @@ CONSTANTS
   DevMultiDrop = TRUE
   DevIncomingDrop = TRUE
   DevManagedEmpty = TRUE
+  DevPollMultiLen = TRUE
   Part = "stream"
-  Feat = {"vec", "zc", "managed", "msg", "multi"}
+  Feat = {"zc", "managed", "multi"}
   Sizes = {0, 1, 3}
   Caps = {0, 1, 3}
   SockBuf = 2
-  MaxOff = 4
+  MaxOff = 3
   Dirs = {1}
   Conns = {1, 2, 3}
   DgSocks = {"a", "b", "c"}
   MaxDg = 3
-SPECIFICATION Spec
+SPECIFICATION SpecStream
 VIEW mcview
 INVARIANTS TypeOk StreamPrefix Conservation StreamExact EofComplete ZcOk HandleOk
